@@ -372,6 +372,11 @@ type recGK struct {
 	mu    sync.Mutex
 	recvd []recPart
 	prep  [][]string
+	// fault controls (C08's HTTP lane)
+	notReady bool // Ready() answers false: the server says 503
+	failAt   int  // 1-based index of the Receive call (since the last reset) that fails; 0 = none
+	calls    int
+	held     int // what Received() reports; -1 = all
 }
 
 type recPart struct {
@@ -385,10 +390,21 @@ type recPart struct {
 func (g *recGK) Recover()                            {}
 func (g *recGK) CleanNow()                           {}
 func (g *recGK) Prune(time.Duration)                 {}
-func (g *recGK) Ready() bool                         { return true }
+func (g *recGK) Ready() bool {
+	g.mu.Lock()
+	defer g.mu.Unlock()
+	return !g.notReady
+}
 func (g *recGK) Scan(string) ([]byte, error)         { return []byte("[]"), nil }
 func (g *recGK) Stop(bool)                           {}
-func (g *recGK) Received(p []sts.Binned) int         { return len(p) }
+func (g *recGK) Received(p []sts.Binned) int {
+	g.mu.Lock()
+	defer g.mu.Unlock()
+	if g.held >= 0 && g.held < len(p) {
+		return g.held
+	}
+	return len(p)
+}
 func (g *recGK) GetFileStatus(string, time.Time) int { return sts.ConfirmNone }
 func (g *recGK) Prepare(parts []sts.Binned) {
 	g.mu.Lock()
@@ -400,6 +416,16 @@ func (g *recGK) Prepare(parts []sts.Binned) {
 	g.prep = append(g.prep, names)
 }
 func (g *recGK) Receive(f *sts.Partial, r io.Reader) error {
+	g.mu.Lock()
+	g.calls++
+	fail := g.failAt > 0 && g.calls == g.failAt
+	g.mu.Unlock()
+	if fail {
+		g.mu.Lock()
+		g.recvd = append(g.recvd, recPart{Name: f.Name, Beg: f.Parts[0].Beg, End: f.Parts[0].End, Err: "injected receive failure"})
+		g.mu.Unlock()
+		return fmt.Errorf("injected receive failure")
+	}
 	data, err := io.ReadAll(r)
 	p := recPart{Name: f.Name, Renamed: f.Renamed, Prev: f.Prev, Hash: f.Hash, Size: f.Size, Beg: f.Parts[0].Beg, End: f.Parts[0].End, TimeNs: f.Time.UnixNano(), Data: data}
 	if err != nil {
@@ -416,6 +442,7 @@ func (g *recGK) Receive(f *sts.Partial, r io.Reader) error {
 }
 
 type c13Server struct {
+	denied map[string]bool // sources the validator refuses (403)
 	port   int
 	gks    map[string]*recGK
 	mu     sync.Mutex
@@ -428,7 +455,7 @@ func (s *c13Server) gk(source string) *recGK {
 	defer s.mu.Unlock()
 	g := s.gks[source]
 	if g == nil {
-		g = &recGK{}
+		g = &recGK{held: -1}
 		s.gks[source] = g
 	}
 	return g
@@ -455,13 +482,17 @@ func startC13Server(c *Ctx) *c13Server {
 			continue
 		}
 		l2.Close()
-		s := &c13Server{port: port, gks: map[string]*recGK{}, stopCh: make(chan bool, 1), doneCh: make(chan bool, 1)}
+		s := &c13Server{port: port, denied: map[string]bool{}, gks: map[string]*recGK{}, stopCh: make(chan bool, 1), doneCh: make(chan bool, 1)}
 		srv := &stshttp.Server{
 			Host: "127.0.0.1", Port: port,
 			GateKeepers:       map[string]sts.GateKeeper{},
 			GateKeeperFactory: func(source string) sts.GateKeeper { return s.gk(source) },
 			DecoderFactory:    payload.NewDecoder,
-			IsValid:           func(source, key string) bool { return true },
+			IsValid: func(source, key string) bool {
+				s.mu.Lock()
+				defer s.mu.Unlock()
+				return !s.denied[source]
+			},
 		}
 		go srv.Serve(s.stopCh, s.doneCh)
 		for k := 0; k < 100; k++ {
